@@ -7,6 +7,7 @@ import Krp.Init
 import Krp.Lemmas.Reach
 import Krp.Lemmas.Funded
 import Krp.Lemmas.NoWd
+import Krp.Lemmas.Arrive
 import Krp.Props.C02
 namespace Krp
 open HubSt
@@ -692,5 +693,236 @@ example : genesisSys.hub.Funded ∧ genesisSys.hub.prevHubBalance ≤ genesisSys
   · show genesisSys.hub.owed ≤ genesisSys.hub.prevHubBalance
     decide
   · decide
+
+
+/-! #### histories without slashing of the unbonding stake: no side condition is needed
+
+  `Lemmas/Arrive.lean` carries, from message to message and from block to block, that the hub's
+  balance covers `prev_hub_balance`, the hub's pending outflows and the coins undelegated for
+  every matured, unreleased batch (`ArriveQ`), using the shape of the batch history (`HistInv`,
+  `Lemmas/Shape.lean`).  At a WithdrawUnbonded this gives "at least the undelegated coins
+  arrived", hence `GroupSafe` by `C01_unslashed_arrival_is_safe`. -/
+
+/-- E2 and E1 at a top-level WithdrawUnbonded: the hub's unbonding period is the chain's unbonding
+    time, and the coins that arrived since the last withdrawal are within the envelope 10^18 -/
+def WdOk (s : Sys) (m : Msg) : Prop :=
+  ∀ sender funds s1, m = .wasm sender hubA (.hub .withdrawUnbonded) funds →
+    s.moveFunds sender hubA funds = .ok s1 →
+    s.hub.unbonding = s.chain.unbondingTime ∧ s1.chain.bank hubA 0 - s.hub.prevHubBalance ≤ D
+
+/-- the value of the batches a release processes = what `process_withdraw_rate` calls the totals -/
+private theorem relIds_total (h : HubSt) (ids : List Nat) :
+    sideTotal (h.pairsS ids) + sideTotal (h.pairsB ids) = (ids.map (fun i => batchU (h.histOr i))).sum := by
+  rw [sideTotal_pairsS, sideTotal_pairsB]
+  unfold batchU
+  rw [sum_map_add]
+
+/-- with the arrivals accounted for (`ArriveQ`), the release a top-level WithdrawUnbonded performs
+    meets the side condition -/
+theorem SafeTop.of_arrive (s : Sys) (m : Msg) (rest : List Msg) (ha : ArriveQ s (m :: rest))
+    (hi : HistInv s.hub) (hok : WdOk s m) (hm : m.sentFrom ≠ hubA) : SafeTop s m := by
+  intro sender funds s1 heq hmv hunb
+  obtain ⟨he2, he1⟩ := hok sender funds s1 heq hmv
+  obtain ⟨A, rst, hq, hA, _, hle⟩ := ha.split
+  have hAnil : A = [] := by
+    cases A with
+    | nil => rfl
+    | cons p A' =>
+      simp only [List.cons_append] at hq
+      injection hq with e1 _
+      have := hA p (List.mem_cons_self ..)
+      rw [← e1, heq] at this
+      simp [isLeaf] at this
+  subst hAnil
+  have hB : s.hub.prevHubBalance + maturedSum s.hub s.chain.unbondingTime s.chain.time ≤ s.chain.bank hubA 0 := by
+    simpa [hubOutAll] using hle
+  have r1 := moveFunds_rest sender hubA funds s s1 hmv
+  have hsd : sender ≠ hubA := by rw [heq] at hm; exact hm
+  have hB1 := moveFunds_bank_in sender hubA hsd funds s s1 hmv 0
+  apply C01_unslashed_arrival_is_safe _ _ _ ?_ he1
+  rw [relIds_total]
+  -- every batch the release processes has matured by the chain's clock
+  have hsub : ((s.hub.relIds (s1.chain.time - s.hub.unbonding)).map (fun i => batchU (s.hub.histOr i))).sum ≤
+      maturedSum s.hub s.chain.unbondingTime s.chain.time := by
+    unfold maturedSum
+    apply sum_le_of_nodup_subset
+    · exact releasable_nodup _ _ _ _
+    · intro i hi'
+      obtain ⟨x, hx, hr, ht⟩ := releasable_mem s.hub _ _ _ i hi'
+      unfold maturedIds
+      apply List.mem_filter.mpr
+      refine ⟨List.mem_range.mpr ((hi.dom i).mp (by rw [hx]; simp)).2, ?_⟩
+      unfold isMatured
+      simp only [hx, hr, Bool.not_false, Bool.true_and, decide_eq_true_eq]
+      rw [r1.1] at ht hunb
+      omega
+  omega
+
+/-- carried from message to message inside a transaction -/
+structure FullQ (s : Sys) (q : List Msg) : Prop where
+  fund : FundQ s q
+  hist : HistInv s.hub
+  arr : ArriveQ s q
+
+theorem FullQ.step (s s' : Sys) (m : Msg) (rest subs : List Msg) (inv : FullQ s (m :: rest))
+    (hsafe : SafeTop s m)
+    (he2 : ∀ sender funds, m = .wasm sender hubA (.hub .withdrawUnbonded) funds → s.hub.unbonding = s.chain.unbondingTime)
+    (hx : s.handle m = .ok (s', subs)) : FullQ s' (subs ++ rest) := by
+  refine ⟨FundQ.step s s' m rest subs inv.fund hsafe hx, ?_,
+    ArriveQ.step s s' m rest subs inv.arr inv.hist inv.fund.legacy he2 hx⟩
+  cases handle_touch s s' m subs hx with
+  | none h _ _ _ => rw [h.hub]; exact inv.hist
+  | bsei s1 sender funds tm _ _ hx' h t r d g => rw [h]; exact inv.hist
+  | stsei blk sender funds tm _ hx' h b r d g => rw [h]; exact inv.hist
+  | reward s1 sender funds rm _ _ _ _ hx' h b t d g => rw [h]; exact inv.hist
+  | disp env sender funds dm _ _ _ hx' h b t r g => rw [h]; exact inv.hist
+  | reg s1 sender funds rm _ h1 _ _ hx' h b t r d => rw [h]; exact inv.hist
+  | hub s1 sender funds hm heq h1 hmv hc hx' b t r d g =>
+    exact HistInv.hub_step _ _ _ _ _ _ _ inv.hist inv.fund.legacy hx'
+
+/-- a top-level message not sent in the hub's name joins an empty queue -/
+theorem FullQ.push (s : Sys) (m : Msg) (inv : FullQ s []) (hm : m.sentFrom ≠ hubA) : FullQ s [m] := by
+  have hno : isOut m = false := by cases m <;> simp_all [isOut, Msg.sentFrom]
+  obtain ⟨A, rst, hq, _, _, hle⟩ := inv.fund.fund.split
+  have hA : A = [] := by
+    cases A with
+    | nil => rfl
+    | cons p t => simp only [List.cons_append] at hq; cases hq
+  subst hA
+  obtain ⟨A2, rst2, hq2, _, _, hle2⟩ := inv.arr.split
+  have hA2 : A2 = [] := by
+    cases A2 with
+    | nil => rfl
+    | cons p t => simp only [List.cons_append] at hq2; cases hq2
+  subst hA2
+  refine ⟨⟨⟨[], [m], rfl, (fun _ h => by cases h), (by intro x hx; simp at hx; subst hx; exact hno), hle⟩,
+      inv.fund.claims, inv.fund.legacy, inv.fund.funded⟩, inv.hist,
+    ⟨inv.arr.ubpos, inv.arr.fresh, inv.arr.lastUnb, ?_,
+      ⟨[], [m], rfl, (fun _ h => by cases h), (by intro x hx; simp at hx; subst hx; exact hno), hle2⟩⟩⟩
+  intro i x hx hr hlt
+  have c := inv.arr.cover i x hx hr hlt
+  simp only [undelegatedBy] at c
+  split at c <;> split <;> omega
+
+/-- **One transaction, no side condition.** From a state in which released claims are funded, the
+    batch history has its shape and the arrivals are accounted for, any transaction not sent in the
+    hub's name — with everything it triggers — leaves such a state; a top-level WithdrawUnbonded
+    only needs E2 and E1 (`WdOk`), not a side condition on its release. -/
+theorem C01_full_tx (s : Sys) (m : Msg) (inv : FullQ s []) (hm : m.sentFrom ≠ hubA) (hok : WdOk s m) :
+    FullQ (s.exec m).1 [] := by
+  unfold Sys.exec
+  split
+  · rename_i s' hrun
+    have inv1 := FullQ.push s m inv hm
+    simp only [Sys.run] at hrun
+    split at hrun
+    · cases hrun
+    · rename_i s1 subs h1
+      have hsafe := SafeTop.of_arrive s m [] inv1.arr inv1.hist hok hm
+      have he2 : ∀ sender funds, m = .wasm sender hubA (.hub .withdrawUnbonded) funds →
+          s.hub.unbonding = s.chain.unbondingTime := by
+        intro sender funds heq
+        obtain ⟨s0, hmv, _⟩ := handle_wasm_chain_eq s s1 sender hubA _ funds subs (heq ▸ h1)
+        exact (hok sender funds s0 heq hmv).1
+      have st1 := FullQ.step s s1 m [] subs inv1 hsafe he2 h1
+      have nw1 : ∀ x ∈ subs ++ [], isHubWd x = false := by
+        intro x hx; rw [List.append_nil] at hx; exact handle_noWd s s1 m subs h1 x hx
+      have fin := run_inv2 (fun a q => FullQ a q ∧ ∀ x ∈ q, isHubWd x = false)
+        (fun a b r a' sb hp hxx => ⟨FullQ.step a a' b r sb hp.1
+            (SafeTop.of_noWd a b (hp.2 b (List.mem_cons_self ..)))
+            (fun sender funds heq => by
+              have := hp.2 b (List.mem_cons_self ..)
+              rw [heq] at this
+              simp [isHubWd] at this) hxx, by
+          intro x hx
+          rcases List.mem_append.mp hx with h | h
+          · exact handle_noWd a a' b sb hxx x h
+          · exact hp.2 x (List.mem_cons_of_mem _ h)⟩)
+        399 s1 (subs ++ []) s' ⟨st1, nw1⟩ hrun
+      exact fin.1
+  · exact inv
+
+/-- **Every reachable state, histories without slashing of the unbonding stake: the hub's liquid
+    balance covers the sum of all released claims and, on top of them, the coins of every matured
+    batch not yet released.** From a state where that holds (the instantiated hub), after any
+    history of any length — transactions not sent in the hub's name with everything they trigger,
+    validator slashing, time, donations, rewards, failed transactions — in which the unbonding stake
+    is not slashed and every top-level WithdrawUnbonded finds E2 and E1 in force (`WdOk`):
+    Σ released claims ≤ `prev_hub_balance`, and
+    `prev_hub_balance` + Σ coins undelegated for matured unreleased batches ≤ the hub's balance.
+    No side condition on the releases is needed: they are shown to meet it. -/
+theorem C01_funded_reachable_unslashed (s : Sys) (l : List Step) (inv : FullQ s [])
+    (hq : ∀ m, Step.tx m ∈ l → m.sentFrom ≠ hubA)
+    (hnl : ∀ u b a, Step.env (.seedLegacy u b a) ∉ l)
+    (hns : ∀ v n d, Step.env (.slashUnbonding v n d) ∉ l)
+    (hok : ∀ pre m post, l = pre ++ Step.tx m :: post → WdOk (s.steps pre) m) :
+    (s.steps l).hub.owed ≤ (s.steps l).hub.prevHubBalance ∧
+    (s.steps l).hub.prevHubBalance +
+      maturedSum (s.steps l).hub (s.steps l).chain.unbondingTime (s.steps l).chain.time ≤
+      (s.steps l).chain.bank hubA 0 := by
+  suffices h : FullQ (s.steps l) [] by
+    obtain ⟨A, rst, hq', _, _, hle⟩ := h.arr.split
+    have hA : A = [] := by
+      cases A with
+      | nil => rfl
+      | cons p t => simp only [List.cons_append] at hq'; cases hq'
+    subst hA
+    exact ⟨h.fund.funded, by simpa [hubOutAll] using hle⟩
+  induction l generalizing s with
+  | nil => exact inv
+  | cons st rest ih =>
+    show FullQ ((s.step st).steps rest) []
+    apply ih
+    · cases st with
+      | tx m =>
+        exact C01_full_tx s m inv (hq m (List.mem_cons_self ..)) (hok [] m rest rfl)
+      | env e =>
+        have hne : ∀ u b a, e ≠ .seedLegacy u b a := by
+          intro u b a he; subst he; exact hnl u b a (List.mem_cons_self ..)
+        have hnse : ∀ v n d, e ≠ .slashUnbonding v n d := by
+          intro v n d he; subst he; exact hns v n d (List.mem_cons_self ..)
+        have sc := env_same s e hne
+        have ha := ArriveQ.env s e inv.arr inv.hist hnse hne
+        have hB : (s.env e).hub.prevHubBalance ≤ (s.env e).chain.bank hubA 0 := by
+          obtain ⟨A, rst, hq', _, _, hle⟩ := ha.split
+          have hA : A = [] := by
+            cases A with
+            | nil => rfl
+            | cons p t => simp only [List.cons_append] at hq'; cases hq'
+          subst hA
+          have : (s.env e).hub.prevHubBalance + maturedSum (s.env e).hub (s.env e).chain.unbondingTime (s.env e).chain.time ≤
+              (s.env e).chain.bank hubA 0 := by simpa [hubOutAll] using hle
+          omega
+        show FullQ (s.env e) []
+        refine ⟨⟨⟨[], [], rfl, (fun _ h => by cases h), (fun _ h => by cases h), by simpa [hubOutAll] using hB⟩,
+          by rw [sc.hub]; exact inv.fund.claims, by rw [sc.hub]; exact inv.fund.legacy,
+          by rw [sc.hub]; exact inv.fund.funded⟩, by rw [sc.hub]; exact inv.hist, ha⟩
+    · exact fun m hm => hq m (List.mem_cons_of_mem _ hm)
+    · exact fun u b a hm => hnl u b a (List.mem_cons_of_mem _ hm)
+    · exact fun v n d hm => hns v n d (List.mem_cons_of_mem _ hm)
+    · intro pre m post he
+      exact hok (st :: pre) m post (by rw [he]; rfl)
+
+
+/-! Non-vacuity of `C01_funded_reachable_unslashed`: the genesis state on a chain whose unbonding
+    time equals the hub's unbonding period (E2). -/
+def genesisE2 : Sys := { genesisSys with chain := { genesisSys.chain with unbondingTime := 100 } }
+
+example : FullQ genesisE2 [] := by
+  have hc : ClaimInv genesisE2.hub :=
+    ClaimInv.of_same (h := (hubInit 1 0 30 100 0 D 1 3).toOption.getD default) ⟨rfl, rfl, rfl, rfl, rfl, rfl, rfl⟩
+      (C07_init 1 0 30 100 0 D 1 3 _ rfl)
+  have hh : HistInv genesisE2.hub :=
+    (HistInv.init 1 0 30 100 0 D 1 3 _ rfl).of_same (h := (hubInit 1 0 30 100 0 D 1 3).toOption.getD default)
+      rfl rfl rfl rfl
+  have hm : maturedSum genesisE2.hub genesisE2.chain.unbondingTime genesisE2.chain.time = 0 := by decide
+  refine ⟨⟨⟨[], [], rfl, (fun _ h => by cases h), (fun _ h => by cases h), by decide⟩, hc, rfl, ?_⟩, hh,
+    ⟨by decide, (fun e he => by cases he), by decide, ?_,
+      ⟨[], [], rfl, (fun _ h => by cases h), (fun _ h => by cases h), by rw [hm]; decide⟩⟩⟩
+  · show genesisE2.hub.owed ≤ genesisE2.hub.prevHubBalance
+    decide
+  · intro i x hx
+    have : genesisE2.hub.hist i = none := rfl
+    rw [this] at hx; cases hx
 
 end Krp
